@@ -520,3 +520,14 @@ def op_checksequenceverify(st, tx_version, sequence):
     if a > b:
         return None
     return st
+
+
+def serialize_commands(cmds):
+    """script bytes of a command list: one byte per opcode, the canonical push for every data item"""
+    r = b''
+    for c in cmds:
+        if isinstance(c, int):
+            r = r + bytes([c])
+        else:
+            r = r + push_data(c)
+    return r
